@@ -275,6 +275,20 @@ def check_C02():
 
 
 def check_C01():
+    # write side under the documented de-duplication: the Store.tla graph with byte comparison of every file
+    vh = build_harness()
+    emit = run_tlc("MCStore", "Store_sem_emit.cfg", timeout=1500)
+    tlc_must_pass(emit, "Store.tla emitter")
+    rc, srep = harness_run(vh, ["store-replay", emit["out"], "@REPORT", "depth=2", "tail=0", "cover=1", "c05=1", "ops=put,putmany,finalize"])
+    os.remove(emit["out"])
+    if srep["violations"]:
+        for v in srep["violations"]:
+            v["class"] = "roundtrip/dedupe/" + v["class"]
+        finish("C01", "model_checking", {"evaluations": srep["evaluations"], "distinct_nontrivial": srep["distinct_nontrivial"],
+                                         "samples": srep["samples"] or [{}], "states": emit["distinct"], "transitions": emit["states"],
+                                         "traces_validated_against_impl": srep["evaluations"]}, srep["violations"])
+    global _c01_store
+    _c01_store = srep
     archive_family("C01", arch_cfgs(), "scan", "Scan",
                    ARCH_RULE % (3, "the same alphabets") +
                    "read side: v2 BlockReader (seekable and plain source), v2 Reader (DataReader/IndexReader/Roots), root-module CarReader and LoadCar, internal CARv1 reader and loader must return the "
